@@ -114,3 +114,45 @@ def as_single_comp(path: Path, t: Term) -> Term:
         if segs is not None and not segs:
             return ("list", ())
     return t
+
+
+def concrete_list(path: Path, t: Term, depth: int = 0) -> Optional[List[Term]]:
+    """The elements of a list whose length is fixed on this path: a display, a local list filled by append/extend of such lists, a
+    concatenation of them, or a comprehension without filter over such a list."""
+    if depth > 6:
+        return None
+    if t[0] == "list":
+        if any(x[0] == "star" for x in t[1]):
+            return None
+        return list(t[1])
+    if t[0] == "var":
+        segs = contents(path, t)
+        if segs is None:
+            if t[3][0] in ("comp", "concat"):
+                return concrete_list(path, t[3], depth + 1)
+            return None
+        out: List[Term] = []
+        for sg in segs:
+            xs = concrete_list(path, sg, depth + 1)
+            if xs is None:
+                return None
+            out.extend(xs)
+        return out
+    if t[0] == "concat":
+        out = []
+        for sg in t[1]:
+            xs = concrete_list(path, sg, depth + 1)
+            if xs is None:
+                return None
+            out.extend(xs)
+        return out
+    if t[0] == "comp" and t[1] in ("list", "gen") and len(t[3]) == 1 and not t[3][0][1]:
+        dom = t[3][0][0]
+        xs = concrete_list(path, dom, depth + 1)
+        if xs is None:
+            return None
+        bs = subterms(t[2], lambda x: x[0] == "bound" and isinstance(x[1], int) and x[3] == show(dom))
+        if len(bs) > 1:
+            return None
+        return [subst(t[2], {bs[0]: x}) if bs else t[2] for x in xs]
+    return None
